@@ -120,6 +120,8 @@ func c14Render(p *Program, knobs map[string]int, mainSrc string) (Obs, *simrt.Wo
 	saved := twig.VerifSwapGlobals(nil)
 	defer twig.VerifSwapGlobals(saved)
 	e := twig.New()
+	installSandbox(e)
+	installGlobals(e)
 	regErr := ""
 	for _, t := range p.Templates {
 		src := t.Src()
